@@ -936,6 +936,18 @@ def _report(ck, mod, fn, fi, loop, ret, rp, rf, sinks, MF, PN, TN=None, clears=(
             ck.ok(rule + '.report', mod, b, u(b.test), 'back-trace runs until the head `%s` (= %s at every test) has no predecessor (sentinel -1)' % (H, head))
             ck.ok(rule + '.report', mod, step, u(step), 'path rebuilt by following predecessor links to a source: the head moves to its predecessor, which is added to the list')
             return
+        cl = _carried_link(mod, fi, b, P, gs, mode, garg, first_expr, sinks)
+        if cl is not None:
+            PNb, L, step = cl
+            if PN is not None and PNb != PN:
+                ck.bad(rule + '.report', mod, b, F, u(b.test), 'the back-trace follows `%s` but the search records predecessors in `%s`' % (PNb, PN))
+                return
+            if [s for s in fi._mutated_in_place(PNb) if _inside(mod, s, b)]:
+                ck.missing(rule + '.report', 'the predecessor array %s is modified inside the back-trace loop' % PNb)
+                return
+            ck.ok(rule + '.report', mod, b, u(b.test), 'back-trace runs until the carried link `%s` (= %s[%s] at every test) is the sentinel -1' % (L, PNb, head))
+            ck.ok(rule + '.report', mod, step, u(step), 'path rebuilt by following predecessor links to a source: the tested link is added to the list and then advanced')
+            return
     if vt[0] != 'match' or not isinstance(vt[1]['_PN'], ast.Name):
         ck.decide(vt if vt[0] != 'match' else 'far', rule + '.report', mod, b, F, u(b.test), '',
                   'the back-trace must run while the predecessor of the current head (%s) is not the sentinel -1' % head)
@@ -1043,6 +1055,67 @@ def _carried_head(mod, fi, b, P, gs, garg, first_expr, first_at, sinks, test_for
     else:
         ok = classify(garg, link)[0] == 'match'
     return (PNb, H, step) if ok else None
+
+
+def _carried_link(mod, fi, b, P, gs, mode, garg, first_expr, sinks):
+    """Back-trace whose loop-carried name L is the predecessor LINK of the head, not the head:
+
+        L = <prev>[<first element of the list>]     (before the loop)
+        while L != -1:
+            <list>.append(L); L = <prev>[L]         (growth first, then the advance)
+
+    Invariant at every evaluation of the loop test: L == <prev>[head of the list] - it holds at entry by the
+    initialisation, and an iteration makes the old L the head and the new L its predecessor.  L has exactly these
+    two definitions; both statements are unconditional top-level statements of the body, growth before advance.
+    Returns (<prev> name, L, advance statement) or None."""
+    from ..match import match
+    hit = None
+    for f in ('_L != -1', '-1 != _L', '0 <= _L', '-1 < _L', '_L >= 0', '_L > -1'):
+        bd = match(f, b.test)
+        if bd is not None and isinstance(bd.get('_L'), ast.Name):
+            hit = bd
+            break
+    if hit is None:
+        return None
+    L = hit['_L'].id
+    Ln = [n for n in walk_expr(b.test) if isinstance(n, ast.Name) and n.id == L][0]
+    if L == P or fi._mutated_in_place(L):
+        return None
+    defs = fi.defs_of_use(Ln)
+    inner = [s for s in assigns_to(b, L)]
+    if len(defs) != 2 or len(inner) != 1 or inner[0] not in defs:
+        return None
+    step = inner[0]
+    init = [d for d in defs if d is not step][0]
+    if init in ('PARAM', 'UNBOUND') or not isinstance(init, ast.Assign) or _inside(mod, init, b) or not fi.cfg.dominates(init, b):
+        return None
+
+    def link_of(e):
+        if isinstance(e, ast.Call) and call_name(e) == 'int' and len(e.args) == 1 and not e.keywords:
+            e = e.args[0]
+        if isinstance(e, ast.Subscript) and isinstance(e.value, ast.Name):
+            return e.value.id, e.slice
+        return None
+    v0 = fi.def_value(init, L)
+    l0 = link_of(v0) if v0 is not None else None
+    if l0 is None or fi.xu(l0[1], stop=(sinks,)) != fi.xu(first_expr, stop=(sinks,)):
+        return None
+    PNb = l0[0]
+    if PNb in (L, P):
+        return None
+    if not (isinstance(step, ast.Assign) and len(step.targets) == 1 and isinstance(step.targets[0], ast.Name)):
+        return None
+    l1 = link_of(step.value)
+    if l1 is None or l1[0] != PNb or not (isinstance(l1[1], ast.Name) and l1[1].id == L):
+        return None
+    if step not in b.body or gs not in b.body or not _every_iteration(mod, step, b) or not _every_iteration(mod, gs, b) or b.orelse:
+        return None
+    if b.body.index(gs) > b.body.index(step):
+        return None
+    # nothing between initialisation and loop, or between growth and advance, may rebind the list head
+    ok = isinstance(garg, ast.Name) and garg.id == L or (
+        isinstance(garg, ast.Call) and call_name(garg) == 'int' and len(garg.args) == 1 and isinstance(garg.args[0], ast.Name) and garg.args[0].id == L)
+    return (PNb, L, step) if ok else None
 
 
 def _every_iteration(mod, stmt, loop):
@@ -1730,6 +1803,32 @@ def d3_one(ck, mod, rule, name):
             ck.ok(rule + '.copy', mod, r[0], u(r[0]), 'returns the modified copy')
         else:
             ck.missing(rule + '.copy', '%s: the working matrix `%s` is not bound exactly once (to a copy of `%s`) before its stores' % (name, W, nf))
+        # ---- no residual flux is deleted by magnitude: `x[x < c] = 0` with c > 0 on the working matrix (or on a
+        # copy of its path edges that is stored back) removes genuinely positive residuals of every path edge, so
+        # later pathways disappear and the enumeration stops short of the requested fraction
+        for st in walk_local(fn):
+            if not (isinstance(st, ast.Assign) and len(st.targets) == 1 and isinstance(st.targets[0], ast.Subscript)
+                    and isinstance(st.targets[0].value, ast.Name) and _is_zero(st.value)):
+                continue
+            base, cmpx = st.targets[0].value.id, st.targets[0].slice
+            if not (isinstance(cmpx, ast.Compare) and len(cmpx.ops) == 1):
+                continue
+            l, op, r = cmpx.left, cmpx.ops[0], cmpx.comparators[0]
+            thr = None
+            if isinstance(op, (ast.Lt, ast.LtE)) and isinstance(const_value(r), (int, float)) and not isinstance(const_value(r), bool):
+                thr, side = const_value(r), l
+            elif isinstance(op, (ast.Gt, ast.GtE)) and isinstance(const_value(l), (int, float)) and not isinstance(const_value(l), bool):
+                thr, side = const_value(l), r
+            if thr is None or not thr > 0 or base not in names_loaded(side):
+                continue
+            dv = None
+            if base != W:
+                ds = [d for d in fi.rd.defs_at(st, base) if isinstance(d, ast.Assign)]
+                dv = fi.def_value(ds[0], base) if len(ds) == 1 else None
+            if base == W or (isinstance(dv, ast.Subscript) and isinstance(dv.value, ast.Name) and dv.value.id == W):
+                ck.bad(rule + '.threshold-zero', mod, st, name, u(st),
+                       'residual fluxes below the positive constant %r are set to 0 in %s: the removal may zero only the bottleneck '
+                       'edge (whose residual is 0 up to rounding); positive residuals are flux still to be explained' % (thr, name))
         # ---- the bottleneck edge is zeroed
         Ks = ['%s[%s].argmin()' % (W, e) for e in E]
         Ks += ['int(%s)' % k for k in Ks]
